@@ -178,9 +178,11 @@ def c12(tier, repo=None):
     else:
         plan = [("SerGen_t2.cfg", {"MaxDepth": 2, "MaxPtr": 2, "Bases": ["int", "string", "named", "unreg"], "ErrDepth": 1, "Fx": "asis",
                                    "KeyKinds": ["string", "int", "bool", "named", "any"]}, 900),
-                ("SerGen_t3.cfg", {"MaxDepth": 3, "MaxPtr": 2, "Bases": ["int"], "ErrDepth": 1, "Fx": "asis",
-                                   "KeyKinds": ["string", "any"]}, 1500)]
-        variants, limit = 3, 400000
+                ("SerGen_t3.cfg", {"MaxDepth": 3, "MaxPtr": 1, "Bases": ["int"], "ErrDepth": 0, "Fx": "asis",
+                                   "KeyKinds": ["string", "any"]}, 1500),
+                ("SerGen_t3p.cfg", {"MaxDepth": 3, "MaxPtr": 2, "Bases": ["int"], "ErrDepth": 0, "Fx": "asis",
+                                    "KeyKinds": ["string"]}, 1500)]
+        variants, limit = 2, 400000
     cases, states, trans, seen = [], 0, 0, set()
     for name, consts, to in plan:
         cs, run = ser_generate(name, consts, to)
@@ -312,7 +314,7 @@ def cat_sig(reason):
     return reason.replace(":", "/")
 
 
-ALL_FAMS = ["hdr", "calls", "callsT", "calls2", "many", "meta", "extra", "list", "map", "str", "int", "acc", "plain"]
+ALL_FAMS = ["hdr", "calls", "calls3", "callsT", "calls2", "many", "meta", "extra", "list", "map", "str", "int", "acc", "plain"]
 
 
 def c14(tier, repo=None):
@@ -321,12 +323,11 @@ def c14(tier, repo=None):
     log("[C14] tier=%s seed=%d repo=%s" % (tier, vlib.SEED, repo))
     rnd = random.Random(vlib.SEED * 15485863 + 14)
     if tier == "quick":
-        plan = [("ConcatGen_q", ALL_FAMS, 3, ["hdr", "calls", "many", "meta", "extra", "map", "str", "int", "acc", "plain"], 600)]
+        plan = [("ConcatGen_q", ALL_FAMS, 3, ["hdr", "calls3", "many", "meta", "extra", "map", "str", "int", "acc", "plain"], 600)]
         limit = None
     else:
-        plan = [("ConcatGen_t", ALL_FAMS, 4, ["many", "meta", "extra", "map", "str", "int", "acc", "plain", "callsT", "calls2", "list"], 1500),
-                ("ConcatGen_t4", ["hdr", "calls"], 4, ["hdr", "calls"], 1700)]
-        limit = 150000
+        plan = [("ConcatGen_t", ALL_FAMS, 4, ["hdr", "calls3", "callsT", "many", "meta", "extra", "map", "str", "int", "acc", "plain"], 1700)]
+        limit = 100000
     cases, gens, states, trans = [], [], 0, 0
     for name, fams, maxlen, longf, to in plan:
         cs, run = cat_generate(name + ".cfg", fams, maxlen, longf, "asis", to)
